@@ -66,6 +66,10 @@ func (fx *FnExec) run() (err error) {
 		v := fx.freshVal(fv.Type(), "fv."+fv.Name())
 		fx.vals[fv] = v
 		fx.c.assert(fx.wellTyped(v, &fx.cur))
+		if isPointer(fv.Type()) {
+			// a captured variable is a cell that exists
+			fx.c.assert(sNot(fx.isNil(v)))
+		}
 	}
 	alloc0 := fx.heapVar(&fx.cur, "$alloc", "Int")
 	fx.c.assert(app(">", alloc0, "0"))
@@ -119,6 +123,11 @@ func (fx *FnExec) specEnv(heap, old *Heap, results []Val) *Env {
 	}
 	if fx.selfVal != nil {
 		env.names["self"] = *fx.selfVal
+	}
+	for _, fv := range fx.fn.FreeVars {
+		if v, ok := fx.vals[fv]; ok {
+			env.names[fv.Name()] = v
+		}
 	}
 	if fx.fn.Pkg != nil {
 		env.pkg = fx.fn.Pkg.Pkg
@@ -431,6 +440,23 @@ func (fx *FnExec) loopHeader(b *ssa.BasicBlock, li *loopInfo, edges []inEdge) er
 		fx.vals[p] = v
 		fx.assume(fx.wellTyped(v, &fx.cur))
 	}
+	// implicit invariant: outside the function's modifies set nothing has changed since entry
+	if fc := fx.frameContract(); fc != nil && !li.modAll {
+		byName, all, err := fx.modTargetsByName(fc)
+		if err != nil {
+			return err
+		}
+		if !all {
+			for _, n := range sortedKeys(li.mods) {
+				if n == "$alloc" || n == "$fail" {
+					continue
+				}
+				if f := fx.frameFact(n, &fx.cur, byName); f != "" {
+					fx.assume(f)
+				}
+			}
+		}
+	}
 	// 4. assume invariants
 	for _, inv := range invs {
 		env := fx.specEnv(&fx.cur, &fx.entry, nil)
@@ -462,9 +488,7 @@ func (fx *FnExec) backEdge(from, header *ssa.BasicBlock, succIdx int) error {
 		}
 	}
 	invs := fx.loopInvariants(li)
-	if len(invs) == 0 {
-		return nil
-	}
+	fx.obls = append(fx.obls, &Obligation{Name: displayKey(fx.key) + fmt.Sprintf("/cover#loop%d.b%d", li.ordinal, latchOrdinal(li, from)), Class: "cover", Fn: fx.key, Goal: sNot(cond), Upto: fx.c.mark(), Text: "loop back edge is reachable under the invariant", fx: fx, Expect: "sat"})
 	// bind phis to their back-edge values temporarily
 	saved := map[ssa.Value]Val{}
 	for _, in := range header.Instrs {
@@ -502,6 +526,26 @@ func (fx *FnExec) backEdge(from, header *ssa.BasicBlock, succIdx int) error {
 		}
 		o := fx.oblige("inv-preserved", lab, t, "loop invariant is preserved: "+inv.Text, from.Instrs[len(from.Instrs)-1].Pos())
 		o.Props = fx.con.Props
+	}
+	if fc := fx.frameContract(); fc != nil && !li.modAll {
+		byName, all, err := fx.modTargetsByName(fc)
+		if err != nil {
+			return err
+		}
+		if !all {
+			for _, n := range sortedKeys(li.mods) {
+				if n == "$alloc" || n == "$fail" {
+					continue
+				}
+				if f := fx.frameFact(n, &fx.cur, byName); f != "" && f != tTrue {
+					lab := fmt.Sprintf("loop%d.%s", li.ordinal, n)
+					if len(li.latches) > 1 {
+						lab += fmt.Sprintf("@b%d", latchOrdinal(li, from))
+					}
+					fx.oblige("frame", lab, f, "loop body changes only the locations named in `modifies`: "+n, from.Instrs[len(from.Instrs)-1].Pos())
+				}
+			}
+		}
 	}
 	fx.curReach = savedReach
 	fx.curBlock = savedBlock
@@ -638,7 +682,9 @@ func (fx *FnExec) instr(in ssa.Instruction) error {
 			svc := sv
 			fx.set(x, Val{T: x.Type(), Loc: &Loc{Kind: LElem, Slice: &svc, Idx: iv.one(), ElemT: elemOf(x.X.Type())}})
 		} else {
-			fx.abstract("index address of array pointer")
+			if a, ok := x.X.(*ssa.Alloc); !ok || a.Comment != "varargs" {
+				fx.abstract("index address of array pointer")
+			}
 			r := fx.alloc(&fx.cur)
 			fx.set(x, Val{T: x.Type(), L: []string{r}})
 		}
@@ -1171,7 +1217,9 @@ func (fx *FnExec) sliceOp(x *ssa.Slice) error {
 		}
 		fx.set(x, out)
 	default:
-		fx.abstract("slice of array pointer")
+		if a, ok := x.X.(*ssa.Alloc); !ok || a.Comment != "varargs" {
+			fx.abstract("slice of array pointer")
+		}
 		r := fx.freshVal(x.Type(), "slice")
 		fx.assume(fx.wellTyped(r, &fx.cur))
 		fx.set(x, r)
